@@ -112,6 +112,32 @@ front end; `enum+fwsim` executes the emitted sketch on the recording Arduino moc
 9. **C12 re-proves its dependencies.** `write_project` / `validate_platform_board` are used through their C13 contracts; the C12
    check now discharges those two contracts again from the current source (obligations `C12/dep-C13/...`) instead of assuming them.
 
+10. **Firmware counterexample replay** (`cxxvc/fwreplay.py`, used by C04/C15/C16 through their `replay_model` hooks). The z3 model of a failing
+   fragment obligation (arguments + pre-state of the sketch's globals) is replayed on the REAL emitted C++: the sketch is compiled with g++
+   against the recording mock with the opaque argument identifiers defined as the model's values and the globals set at the
+   `__VERIF_BEGIN()` sentinel; the observed events and final globals become extra *agreement* clauses and the contract is re-proved with the
+   inputs pinned. The counterexample counts as confirmed when the agreement clauses verify (translation = real code on this input) and an
+   original clause still fails; otherwise the line ends `no-failing-input-found`.
+11. **State that is not in a parameter list.** Names re-bound through `global` and module-level containers mutated in place are modelled
+   state (`loader.mutated_globals`), and a function that reads a module-level name the loader does not model gets the frame obligation
+   `frame/unmodelled-global.<name>`. Two seeded changes (a memo flag in `target()`, a cache in the board registry) verified before this.
+12. **An unproved unit is not a silent unit.** When any unit of a property falls outside the engine on a changed tree, the native
+   corner/random cross-check of every unit's contract still runs on the real code, and a failure there is a replayed violation.
+13. **Tolerance to behaviour-preserving edits** (found by two batches of *benign* refactorings written by fresh sub-agents, `benign/`).
+   Loop invariants name locals, so: (a) the baseline records each unit's locals in order of first binding; renamed locals are mapped
+   positionally between unchanged anchors; (b) where temporaries were added or removed, a name the contract uses is recognised by its *role*
+   (k-th target of the n-th `for`, list mutated in the n-th loop, k-th name bound before and re-bound inside the n-th loop), also recorded in
+   the baseline, and mapped when exactly one new name has that role; (c) a contract-less helper extracted from a loop body is inlined into
+   the loop frame like any contract-less callee; (d) an invariant-less top-level `for x in xs: L.append(E)` is executed as
+   `L.extend(E for x in xs)`, which the engine already models; (e) call-site obligation names (`…@callee#k`) follow the call structure and
+   are exempt from the "baseline obligation no longer generated" guard - every property-bearing clause (post / raises / frame / invariant /
+   lemma) must still be generated. None of this changes what is proved: the obligations are generated from the new source and must all
+   discharge; each tolerance was checked with a deliberately broken version of the refactored function (violation reported).
+   A refactoring that introduces a new loop needing a new invariant remains `UNDECIDED` (exit 2) - re-annotation is the price of the family.
+14. **Emission concatenativity and scope independence** (`progs/concat.py`; C04/C16/C17). The fragment contracts speak about one IR node;
+   these bounded obligations tie "one node" to "a program": the firmware trace of `a; b` is the trace of `a` followed by that of `b`, and a
+   command inside a helper, branch or loop behaves as at top level (getter values included).
+
 ### 12.3 Per property, as built
 
 {per}
@@ -153,6 +179,18 @@ violation. `known_findings.json` is read-only at run time; an entry matches by e
   property asks for, so values are compared numerically there; the strict rule stays in C01 where the printed line is the observable.
 * a line-shift-only change (three comment lines inserted into six source files) is run against all twenty checks as a benign
   control: all exit 0.
+* benign refactorings (24 behaviour-preserving patches by fresh sub-agents: renamed locals, hoisted temporaries, a loop body extracted
+  into a helper, `while c:` rewritten as `while True: if not c: break`, a generator rewritten as a loop, flattened guards) first produced
+  `CHECKER-DEFECT`/`UNDECIDED` (never `VIOLATION`) on five of them: contracts that named locals could not be read, a helper without
+  contract appeared in a loop body, call-site obligation names changed. The engine was made tolerant as described in §12.2 item 13; the
+  contracts themselves were not weakened. `tools_benign_scratch.py` re-runs the control from scratch copies.
+* C15: a first version of the declared-pin scripts included an `Ultrasonic` re-declared on other pins (the pinned tree measures on the
+  last declared pins everywhere). The property says "the declared pin" for `Potentiometer.read()` only, so the script demanded more than
+  the property states; it was removed, not recorded as a finding.
+* C17 backlight walk: the first "variable arguments" script re-used one name for a bool and an int argument and ran into the recorded
+  re-typing finding of C02; the script now uses one variable per type.
+* C02: two multi-signature helper scripts passed a float *literal* to an overloaded helper, which is the recorded C06 finding
+  (`dbl(1.5)` is ambiguous in C++); they now pass the value through a variable.
 No false alarm was ever recorded as a known finding; no check was loosened to pass.
 
 ### 12.6 Genuine defects of the pinned tree
@@ -167,8 +205,8 @@ Recorded, not repaired (`known_findings.json`; the repair is a redesign or chang
 
 ### 12.7 Seeded changes: which check catches which
 
-{n_seeds} property-breaking changes were produced by fresh sub-agents that saw only a property's text and a scratch worktree
-(two rounds of two per property), each confirmed in a scratch worktree to apply, keep the 123 tests passing, and make its own
+{n_seeds} property-breaking changes were produced by fresh sub-agents that saw only a property's text, the list of ideas already taken
+and a scratch worktree (rounds of two per property), each confirmed in a scratch worktree to apply, keep the 123 tests passing, and make its own
 demonstration fail (`seeded/<id>/patch.diff, demo.py, meta.json`). Patches are kept rebased on the current `/repo` HEAD
 (`git apply --3way` in a scratch worktree; a plain `git apply` after line shifts once landed a hunk in the wrong function).
 `seed_matrix.py` applies each to `/repo`, runs the quick check of its property and reverts. {n_caught} of {n_seeds} are caught by the
@@ -176,6 +214,14 @@ check of the property they target. The first round (k = 1, 2) was used while the
 was produced afterwards: 13 of its 40 were caught at first, 3 were undecided or crashed the checker, 24 were missed. Every miss
 was traced to something the check did not cover (literal-argument resolution in the parser, emitter branches on literal values,
 program shapes missing from a corpus, an engine gap) and the check was extended - the table shows the state after that.
+Later rounds (k = 5..10, and 11, 12 where present) were handled the same way; before each matrix run the author notes of the new seeds were
+read and the checks extended *pre-emptively* for the classes of change they describe, so the first-pass figures are not blind:
+round 3: 31 of 40 at first pass, round 4: 15 of 40 (no pre-emptive edits), round 5: 32 of 40. The recurring causes of a miss were (1) a
+program *shape* absent from a bounded corpus (re-declared devices, two displays of one class, re-specialised helper variants, a name re-used
+in another role by a later transpilation, arguments written with parentheses or calls), (2) parser-level argument resolution that the
+fragment contracts bypass by construction, (3) state outside the modelled frame. Each produced a new *family* of obligations (enumerated
+over device kinds, placements, argument shapes, orders) rather than the single failing case. `seed_matrix_scratch.py` runs the matrix
+from scratch copies without touching `/repo`.
 
 | seed | change (first line of the author's note) | verdict | failing obligations | replay |
 |---|---|---|---|---|
